@@ -1,6 +1,6 @@
 import Mp4ff.Model.AvcSps
 import Mp4ff.Lemmas.C13Seq
-/-! inversion lemmas for the serialiser `BitSyn.ops` and unfolding lemmas for `BitSyn.parse` (C15) -/
+/-! inversion lemmas for the serialiser `BitSyn.ops` and unfolding lemmas for `BitSyn.parse` (C16: DSL with capped rep, seterr, abort) -/
 namespace Mp4ff.BitSyn
 open Mp4ff.Bits
 
@@ -114,13 +114,13 @@ theorem ops_cond_inv {f : Nat} {p : Trace → Bool} {body rest : List Syn} {acc 
     simp only [hp] at h
     exact ⟨by simpa using hp, h⟩
 
-theorem ops_rep_inv {f : Nat} {n : Trace → Nat} {body rest : List Syn} {acc src : Trace} {os a s}
-    (h : ops (f + 1) (.rep n body :: rest) acc src = some (os, a, s)) :
-    (n acc = 0 ∧ ops f rest acc src = some (os, a, s)) ∨
-    (∃ k o1 a1 s1 o2, n acc = k + 1 ∧ ops f body acc src = some (o1, a1, s1) ∧
-        ops f (.rep (fun _ => k) body :: rest) a1 s1 = some (o2, a, s) ∧ os = o1 ++ o2) := by
+theorem ops_rep_inv {f : Nat} {cap : Nat} {n : Trace → Nat} {body rest : List Syn} {acc src : Trace} {os a s}
+    (h : ops (f + 1) (.rep cap n body :: rest) acc src = some (os, a, s)) :
+    (min (n acc) cap = 0 ∧ ops f rest acc src = some (os, a, s)) ∨
+    (∃ k o1 a1 s1 o2, min (n acc) cap = k + 1 ∧ ops f body acc src = some (o1, a1, s1) ∧
+        ops f (.rep k (fun _ => k) body :: rest) a1 s1 = some (o2, a, s) ∧ os = o1 ++ o2) := by
   simp only [ops] at h
-  cases hn : n acc with
+  cases hn : min (n acc) cap with
   | zero => left; simp only [hn] at h; exact ⟨rfl, h⟩
   | succ k =>
     right
@@ -130,7 +130,7 @@ theorem ops_rep_inv {f : Nat} {n : Trace → Nat} {body rest : List Syn} {acc sr
     | some r1 =>
       obtain ⟨o1, a1, s1⟩ := r1
       simp only [h1] at h
-      cases h2 : ops f (.rep (fun _ => k) body :: rest) a1 s1 with
+      cases h2 : ops f (.rep k (fun _ => k) body :: rest) a1 s1 with
       | none => simp [h2] at h
       | some r2 =>
         obtain ⟨o2, a2, s2⟩ := r2
@@ -138,44 +138,112 @@ theorem ops_rep_inv {f : Nat} {n : Trace → Nat} {body rest : List Syn} {acc sr
         obtain ⟨rfl, rfl, rfl⟩ := h
         exact ⟨k, o1, a1, s1, o2, rfl, rfl, h2, rfl⟩
 
+theorem ops_seterr_inv {f : Nat} {p : Trace → Bool} {rest : List Syn} {acc src : Trace} {r}
+    (h : ops (f + 1) (.seterr p :: rest) acc src = some r) :
+    p acc = false ∧ ops f rest acc src = some r := by
+  simp only [ops] at h
+  cases hp : p acc with
+  | true => simp [hp] at h
+  | false => simp only [hp] at h; exact ⟨rfl, by simpa using h⟩
+
+theorem ops_abort_inv {f : Nat} {p : Trace → Bool} {rest : List Syn} {acc src : Trace} {r}
+    (h : ops (f + 1) (.abort p :: rest) acc src = some r) :
+    p acc = false ∧ ops f rest acc src = some r := by
+  simp only [ops] at h
+  cases hp : p acc with
+  | true => simp [hp] at h
+  | false => simp only [hp] at h; exact ⟨rfl, by simpa using h⟩
+
+/-! `stopped` -/
+
+theorem stopped_append (a b : Trace) : stopped (a ++ b) = (stopped a || stopped b) := by
+  simp [stopped, List.any_append]
+
+theorem stopped_of_append_left {a b : Trace} (h : stopped (a ++ b) = false) : stopped a = false := by
+  rw [stopped_append] at h; simp at h; exact h.1
+
 /-! unfolding of `parse` -/
 
 theorem parse_nil (f : Nat) (acc : Trace) (e : ER) : parse (f + 1) [] acc e = some (acc, e) := rfl
 
-theorem parse_fld (f : Nat) (nm : String) (k : Nat) (rest : List Syn) (acc : Trace) (e : ER) :
-    parse (f + 1) (.fld nm k :: rest) acc e = parse f rest (acc ++ [(nm, ((e.read k).2 : Int))]) (e.read k).1 := rfl
+/-- once stopped, the parser returns at once -/
+theorem parse_stopped (f : Nat) (L : List Syn) (acc : Trace) (e : ER) (hs : stopped acc = true) :
+    parse (f + 1) L acc e = some (acc, e) := by
+  match L with
+  | [] => rfl
+  | .fld _ _ :: _ => simp [parse, hs]
+  | .flag _ :: _ => simp [parse, hs]
+  | .ue _ :: _ => simp [parse, hs]
+  | .se _ :: _ => simp [parse, hs]
+  | .cond _ _ :: _ => simp [parse, hs]
+  | .rep _ _ _ :: _ => simp [parse, hs]
+  | .seterr _ :: _ => simp [parse, hs]
+  | .abort _ :: _ => simp [parse, hs]
 
-theorem parse_flag (f : Nat) (nm : String) (rest : List Syn) (acc : Trace) (e : ER) :
+theorem parse_fld (f : Nat) (nm : String) (k : Nat) (rest : List Syn) (acc : Trace) (e : ER)
+    (hs : stopped acc = false) :
+    parse (f + 1) (.fld nm k :: rest) acc e = parse f rest (acc ++ [(nm, ((e.read k).2 : Int))]) (e.read k).1 := by
+  simp [parse, hs]
+
+theorem parse_flag (f : Nat) (nm : String) (rest : List Syn) (acc : Trace) (e : ER) (hs : stopped acc = false) :
     parse (f + 1) (.flag nm :: rest) acc e =
-      parse f rest (acc ++ [(nm, if e.readFlag.2 then 1 else 0)]) e.readFlag.1 := rfl
+      parse f rest (acc ++ [(nm, if e.readFlag.2 then 1 else 0)]) e.readFlag.1 := by
+  simp [parse, hs]
 
-theorem parse_ue (f : Nat) (nm : String) (rest : List Syn) (acc : Trace) (e : ER) :
+theorem parse_ue (f : Nat) (nm : String) (rest : List Syn) (acc : Trace) (e : ER) (hs : stopped acc = false) :
     parse (f + 1) (.ue nm :: rest) acc e =
-      parse f rest (acc ++ [(nm, (e.readExpGolomb.2 : Int))]) e.readExpGolomb.1 := rfl
+      parse f rest (acc ++ [(nm, (e.readExpGolomb.2 : Int))]) e.readExpGolomb.1 := by
+  simp [parse, hs]
 
-theorem parse_se (f : Nat) (nm : String) (rest : List Syn) (acc : Trace) (e : ER) :
+theorem parse_se (f : Nat) (nm : String) (rest : List Syn) (acc : Trace) (e : ER) (hs : stopped acc = false) :
     parse (f + 1) (.se nm :: rest) acc e =
-      parse f rest (acc ++ [(nm, e.readSignedGolomb.2)]) e.readSignedGolomb.1 := rfl
+      parse f rest (acc ++ [(nm, e.readSignedGolomb.2)]) e.readSignedGolomb.1 := by
+  simp [parse, hs]
 
 theorem parse_cond_true (f : Nat) (p : Trace → Bool) (body rest : List Syn) (acc : Trace) (e : ER)
-    (hp : p acc = true) {a1 e1} (h1 : parse f body acc e = some (a1, e1)) :
+    (hs : stopped acc = false) (hp : p acc = true) {a1 e1} (h1 : parse f body acc e = some (a1, e1)) :
     parse (f + 1) (.cond p body :: rest) acc e = parse f rest a1 e1 := by
-  simp only [parse, hp, if_true, h1]
+  simp [parse, hs, hp, h1]
+
+theorem parse_cond_true_none (f : Nat) (p : Trace → Bool) (body rest : List Syn) (acc : Trace) (e : ER)
+    (hs : stopped acc = false) (hp : p acc = true) (h1 : parse f body acc e = none) :
+    parse (f + 1) (.cond p body :: rest) acc e = none := by
+  simp [parse, hs, hp, h1]
 
 theorem parse_cond_false (f : Nat) (p : Trace → Bool) (body rest : List Syn) (acc : Trace) (e : ER)
-    (hp : p acc = false) :
+    (hs : stopped acc = false) (hp : p acc = false) :
     parse (f + 1) (.cond p body :: rest) acc e = parse f rest acc e := by
-  simp [parse, hp]
+  simp [parse, hs, hp]
 
-theorem parse_rep_zero (f : Nat) (n : Trace → Nat) (body rest : List Syn) (acc : Trace) (e : ER)
-    (hn : n acc = 0) :
-    parse (f + 1) (.rep n body :: rest) acc e = parse f rest acc e := by
-  simp only [parse, hn]
+theorem parse_rep_zero (f : Nat) (cap : Nat) (n : Trace → Nat) (body rest : List Syn) (acc : Trace) (e : ER)
+    (hs : stopped acc = false) (hn : min (n acc) cap = 0) :
+    parse (f + 1) (.rep cap n body :: rest) acc e = parse f rest acc e := by
+  simp only [parse, hs, hn]; simp
 
-theorem parse_rep_succ (f : Nat) (n : Trace → Nat) (body rest : List Syn) (acc : Trace) (e : ER) {k : Nat}
-    (hn : n acc = k + 1) {a1 e1} (h1 : parse f body acc e = some (a1, e1)) :
-    parse (f + 1) (.rep n body :: rest) acc e = parse f (.rep (fun _ => k) body :: rest) a1 e1 := by
-  simp only [parse, hn, h1]
+theorem parse_rep_succ (f : Nat) (cap : Nat) (n : Trace → Nat) (body rest : List Syn) (acc : Trace) (e : ER) {k : Nat}
+    (hs : stopped acc = false) (hn : min (n acc) cap = k + 1) {a1 e1} (h1 : parse f body acc e = some (a1, e1)) :
+    parse (f + 1) (.rep cap n body :: rest) acc e = parse f (.rep k (fun _ => k) body :: rest) a1 e1 := by
+  simp only [parse, hs, hn, h1]; simp
+
+theorem parse_rep_succ_none (f : Nat) (cap : Nat) (n : Trace → Nat) (body rest : List Syn) (acc : Trace) (e : ER)
+    {k : Nat} (hs : stopped acc = false) (hn : min (n acc) cap = k + 1) (h1 : parse f body acc e = none) :
+    parse (f + 1) (.rep cap n body :: rest) acc e = none := by
+  simp only [parse, hs, hn, h1]; simp
+
+theorem parse_seterr (f : Nat) (p : Trace → Bool) (rest : List Syn) (acc : Trace) (e : ER)
+    (hs : stopped acc = false) :
+    parse (f + 1) (.seterr p :: rest) acc e = parse f rest acc (if p acc then { e with err := true } else e) := by
+  simp [parse, hs]
+
+theorem parse_abort_false (f : Nat) (p : Trace → Bool) (rest : List Syn) (acc : Trace) (e : ER)
+    (hs : stopped acc = false) (hp : p acc = false) :
+    parse (f + 1) (.abort p :: rest) acc e = parse f rest acc e := by
+  simp [parse, hs, hp]
+
+theorem parse_abort_true (f : Nat) (p : Trace → Bool) (rest : List Syn) (acc : Trace) (e : ER)
+    (hs : stopped acc = false) (hp : p acc = true) :
+    parse (f + 1) (.abort p :: rest) acc e = some (acc ++ [("__stop", 1)], { e with err := true }) := by
+  simp [parse, hs, hp]
 
 theorem opsBits_append (a b : List Op) : opsBits (a ++ b) = opsBits a ++ opsBits b := by
   induction a with
